@@ -176,6 +176,7 @@ fn mesh2_num(t: &mut Toks, cx: &mut Ctx) -> String {
     for q in 0..nvars {
         let tr = guarded(|| m.trapezium(q)); let st = guarded(|| m.square_trapezium(q));
         out.push_str(&format!(" {} {}", match &tr { Ok(v) => v.wr(), Err(c) => format!("!{}", c) }, match &st { Ok(v) => v.wr(), Err(c) => format!("!{}", c) }));
+        if nx >= 1 && ny >= 1 && (tr.is_err() || st.is_err()) { cx.fail(format!("trapezium / square_trapezium panicked on a valid mesh and variable ({:?} / {:?})", tr.as_ref().err(), st.as_ref().err())); }
         if nx >= 1 && ny >= 1 { if let (Ok(a), Ok(b)) = (&tr, &st) {
             let f = |i: usize, j: usize| m[(i, j)][q];
             let mut s1 = 0.0; let mut s2 = 0.0;
@@ -209,10 +210,12 @@ fn mesh2_num(t: &mut Toks, cx: &mut Ctx) -> String {
             ok &= lines.get(k).map(|l| l.is_empty()).unwrap_or(false); k += 1; }
         cx.check(ok, &format!("{}: the file does not list x, y and the variables of every node (y outer, x inner, blank line after each y) to the printed precision", what)); };
     let r = guarded(|| { m.output(&ps, prec); std::fs::read_to_string(&ps).unwrap_or_default() });
-    if let Ok(text) = &r { if m[(0, 0)].vec.iter().all(|v| v.is_finite()) || nx * ny == 0 { check_text(cx, text, (0..nvars).collect(), "output"); } }
+    if let Ok(text) = &r { if nx * ny == 0 || m[(0, 0)].vec.iter().all(|v| v.is_finite()) { check_text(cx, text, (0..nvars).collect(), "output"); } }
+    if let Err(c) = &r { cx.fail(format!("output panicked ({}) on a valid mesh", c)); }
     out.push_str(&format!(" file {} {}", prec, match r { Ok(s) => enc(s), Err(c) => format!("!{}", c) }));
     let r = guarded(|| { m.output_var(&ps, 0, prec); std::fs::read_to_string(&ps).unwrap_or_default() });
     if let Ok(text) = &r { if nvars > 0 { check_text(cx, text, vec![0], "output_var"); } }
+    if let Err(c) = &r { if nvars > 0 || nx * ny == 0 { cx.fail(format!("output_var panicked ({}) on a valid mesh and variable", c)); } }
     out.push_str(&format!(" filevar {}", match r { Ok(s) => enc(s), Err(c) => format!("!{}", c) }));
     let _ = std::fs::remove_file(&path);
     out
